@@ -10,11 +10,14 @@ CONSTANTS
   GasPrices <- GPV
   Values <- VV
   NonceDeltas <- NDV
+  SDOV = "SDO"
+  SDSV = "SDS"
+  InnerAmt = 1
   Intrinsic = 1
   InitBal <- BalV
   InitNonce <- NonceV
   SelfBeneficiaryBurns = TRUE
-  MaxOps = 2
+  MaxOps = 1
 VIEW view
 INVARIANTS TypeOK NonNeg
 PROPERTIES Conserved ChargeBound NonceStep RejectedNoOp FeeExact
